@@ -300,11 +300,23 @@ def gen_threshold_history(rng, cap0, parity_step):
     return ops
 
 
+def corpus(ext):
+    """Hand-written witnesses and minimised past failures: corpus/C16/*.<ext>, run first."""
+    d = os.path.join(common.VERIF, "corpus", "C16")
+    res = []
+    for f in sorted(os.listdir(d)) if os.path.isdir(d) else []:
+        if f.endswith("." + ext):
+            res.append((f, [l.strip() for l in open(os.path.join(d, f)) if l.strip()]))
+    return res
+
+
 def gen_map_histories(ck):
     rng = ck.rng
     hs = []
     classes = collections.Counter()
     kinds = collections.Counter()
+    for name, ops in corpus("maphist"):
+        hs.append(("corpus:" + name, ops))
     for cap0 in (4, 8, 16, 32, 64):
         for step in (2, 4, 3):
             hs.append(("threshold-fill", gen_threshold_history(rng, cap0, step)))
@@ -485,8 +497,10 @@ def gen_scope_history(ck):
     names = name_pool(rng, 300 if ck.quick else 1500, 9 if ck.quick else 11)
     keyed = [(fnv(n), hexs(n)) for n in names]
     ops = []
+    for _, cops in corpus("scopehist"):     # each corpus history must return to file scope
+        ops.extend(cops)
     depth = 0
-    val = 0
+    val = 1000
     kinds = collections.Counter()
     target = 0
     ck.scope_maxdepth = 0
@@ -1137,8 +1151,10 @@ def run_strings(ck, cc, d):
         elif b:
             b[0] = (b[0] + 1) % 256
         base.append(b)
-    lits = []
-    for i in range(n):
+    # witnesses of the repaired defect (key length was the element count) come first
+    lits = [("L", [97, 98]), ("L", [97, 99]), ("", [97]), ("u", [97]), ("U", [97, 98]), ("u8", [97]), ("", [97, 0]),
+            ("u", [97, 98]), ("u", [97, 99]), ("", []), ("L", []), ("u", [])]
+    for i in range(len(lits), n):
         b = rng.choice(base) if rng.random() < 0.8 else rng.choice(base[:60])
         lits.append((rng.choice(["", "", "u8", "u", "U", "L"]), b))
     src = []
@@ -1278,6 +1294,9 @@ def run_kb(ck):
         return
     stats.update(u.stats)
     kb["big_identifiers"] = len(names)
+    cb = 14 if ck.quick else 17
+    grp = collections.Counter(fnv(x) & ((1 << cb) - 1) for x in names)
+    kb["big_names_sharing_low_%d_hash_bits_with_another" % cb] = sum(v for v in grp.values() if v > 1)
     kb["big_probes"] = u.nchk
     kb["longest_name"] = max(len(n) for n in names)
     kb["constructs"] = dict(stats)
